@@ -109,8 +109,11 @@ class IncludeExcludeTree():
                     continue
                 elif key in self.subtrees:
                     if isinstance(value, dict):
-                        # otherwise it won't be selected anyway
                         result[key] = self.subtrees[key].get(value)
+                    elif self.subtrees[key].include:
+                        # a simple value is not under any subkey.
+                        # It is selected if this key is included.
+                        result[key] = value
                 else:
                     result[key] = value
         else:
@@ -121,8 +124,10 @@ class IncludeExcludeTree():
                     result[key] = value
                 elif key in self.subtrees:
                     if isinstance(value, dict):
-                        # otherwise it won't be selected
                         result[key] = self.subtrees[key].get(value)
+                    elif self.subtrees[key].include:
+                        # see above
+                        result[key] = value
                 else:
                     continue
 
